@@ -72,8 +72,9 @@ def run(res, tier):
                     asg = [n for n in f.walk() if n['k'] == 'BinaryOperator' and n.get('op') in A.ASSIGN_OPS and A.strip_casts(n['ch'][0]).get('d') == e['d']]
                     if len(dfs) == 1 and not asg:
                         e = A.strip_casts(dfs[0]['ch'][0])
-            if e['k'] == 'BinaryOperator' and e.get('op') == '==' and 'v' in e['ch'][1]:
-                rmw = A.strip_casts(e['ch'][0])
+            for (rmw, op_, cv_) in A.rel_forms(e, True):
+                if op_ != '==' or 'v' not in cv_ or not rmw.is_call():
+                    continue
                 opn = (rmw.get('q') or '').split('::')[-1]
                 is_rmw = rmw.is_call() and opn in ops and refs[0] in list(rmw.walk())
                 # prefix form: operator-- without the dummy int argument
@@ -81,7 +82,7 @@ def run(res, tier):
                 expect = cmpv if prefix or not opn.startswith('fetch') else (1 if name == 'AtomicDecrement' else 0)
                 if not prefix and opn.startswith('operator'):
                     expect = 1 if name == 'AtomicDecrement' else 0       # postfix returns the old value
-                shape = is_rmw and e['ch'][1]['v'] == expect
+                shape = is_rmw and cv_['v'] == expect
                 how = e.text()
         res.ob('RMW', f.where(), '%s: single RMW on std::atomic _count decides the result' % name, atomic and shape, how=how, function=f.q, key='RMW|%s|single-rmw' % f.q,
                message='%s no longer derives its result from the value returned by one atomic read-modify-write (or reads _count again): two threads dropping the last two references can both / neither see zero, '
